@@ -9,7 +9,7 @@ CLAIMED = {
         "illegal and out-of-range requests, interruption inside the call, scribbling on returned lists); every "
         "outcome compared with the independent model M1 (exchange legality, resulting boxes/offsets) and every "
         "returned diagram with the exact integer semantics M2. Clothing: monoidal, rigid (with cups/caps), tensor, "
-        "circuit, zx, cartesian; boxes with data, daggers, equal names, shared objects. Every run in a fresh "
+        "circuit, zx, cartesian; boxes with data, daggers, equal names, shared objects, boxes that are themselves diagrams. Every run in a fresh "
         "forked process; violations are minimised (ddmin) and replayed. Evidence over the explored histories, not proof.",
    note="Trusted: M1 exchange rule (DESIGN 4), M2 integer functors (2 per move), sizes <= 9 boxes / 6 wires. "
         "A refusal that depends on the tie-break between two legal sides (scalar/effect directly above a state at "
@@ -43,7 +43,7 @@ CLAIMED = {
    text="Backend peer simulator: discopy clients submit circuits to an in-process discrete-event backend that completes "
         "jobs out of order, varies result representation, and fails; results compared with an exact simulator (M3) of the "
         "exported tket circuit and with local mixed evaluation; the peer may keep and re-serve result objects; raw "
-        "frequencies; compilation passes that change the circuit and then fail; near-duplicate circuits in one batch; "
+        "frequencies; compilation passes that change the circuit and then fail; near-duplicate circuits in one batch; a peer that takes another number of shots than asked; the same request repeated against a caching peer, with and without post-selection; "
         "interruption of a call followed by the same call. Exploration.",
    note="Trusted: pytket Op.get_unitary for gate matrices, M3 branch simulator; <= 5 wires, <= 10 boxes; atol 1e-9.",
    ref="5.5"),
